@@ -244,6 +244,28 @@ fn oracle_c06(t: &WorldTrace, obs: &[Obs], stats: &mut Stats) -> Vec<Violation> 
             break;
         }
     }
+    // the identical configuration in another run (only the OS randomness differs): for single-fault
+    // worlds the reported codes and locations are the same list, in the same order
+    if nofault_ok == Some(true) && out.is_empty() {
+        for (i, v) in t.variants.iter().enumerate() {
+            if v.role != "repeat" {
+                continue;
+            }
+            let twin = t.variants.iter().position(|w| w.role != "repeat" && w.files == v.files && w.args == v.args && w.entry == v.entry && w.dir_seed == v.dir_seed);
+            if let Some(j) = twin {
+                stats.count("c06.repeat_order_comparisons");
+                let list = |o: &Obs| o.diags.iter().map(|d| (d.code.clone(), d.primary.file.clone(), d.primary.start)).collect::<Vec<_>>();
+                if list(&obs[i]) != list(&obs[j]) {
+                    out.push(viol(
+                        "C06",
+                        format!("C06/run-dependent-report/{kind}"),
+                        format!("the same files, arguments and directory order in two runs (hash seeds {} and {}) report {:?} and {:?}", t.variants[j].hash_seed, v.hash_seed, list(&obs[j]), list(&obs[i])),
+                    ));
+                    break;
+                }
+            }
+        }
+    }
     // single-fault worlds: code and location are layout independent
     let canon_diags: Vec<_> = mapped(&t.world, &t.variants[0], canon).into_iter().filter(|(c, _)| c != "P0030").collect();
     if canon_diags.len() == 1 && out.is_empty() && nofault_ok == Some(true) {
@@ -460,10 +482,22 @@ pub fn gen_c13(rng: &mut Rng, thorough: bool) -> WorldTrace {
     }
     // mixtures: the same file twice, a file plus its directory
     let mut a = file_args(rng);
-    if rng.chance(1, 2) {
+    if rng.chance(1, 3) {
         let dup = a[rng.below(a.len())].clone();
         let pos = rng.below(a.len() + 1);
         a.insert(pos, dup);
+    } else if rng.chance(1, 3) {
+        // the directory under a non-canonical spelling, plus one of its own files given directly
+        let direct = a[rng.below(a.len())].clone();
+        a = vec![(*rng.pick(&["ws/.", "ws/../ws", "ws/./"])).to_string()];
+        let pos = rng.below(2);
+        a.insert(pos, direct);
+    } else if rng.chance(1, 2) {
+        // the same file once more, through a path with dot components
+        let dup = a[rng.below(a.len())].clone();
+        let dotted = if rng.chance(1, 2) { dup.replacen("ws/", "ws/./", 1) } else { dup.replacen("ws/", "ws/../ws/", 1) };
+        let pos = rng.below(a.len() + 1);
+        a.insert(pos, dotted);
     } else {
         let pos = rng.below(a.len() + 1);
         a.insert(pos, "ws".into());
@@ -551,6 +585,9 @@ fn oracle_c13(t: &WorldTrace, obs: &[Obs], stats: &mut Stats) -> Vec<Violation> 
                     format!("variant {i} ({role}, args {:?}): result {:?} but stdout {} an OK line", v.args, o.outcome, if o.printed.ok_line { "has" } else { "has not" }),
                 ));
             }
+            if o.printed.ok_lines_stdout > 1 || o.printed.ok_lines_stderr > 0 {
+                out.push(viol("C13", format!("C13/ok-line-misplaced/{:?}", v.entry), format!("variant {i} ({role}): OK printed {} time(s) on stdout and {} time(s) on stderr", o.printed.ok_lines_stdout, o.printed.ok_lines_stderr)));
+            }
             if v.entry == Entry::Check {
                 if ok && !o.printed.codes.is_empty() {
                     out.push(viol("C13", format!("C13/exit-0-but-diagnostic-printed/{what}"), format!("variant {i} ({role}, args {:?}): exit 0 and OK, but stderr carries {:?}", v.args, o.printed.codes)));
@@ -623,11 +660,11 @@ fn oracle_c13(t: &WorldTrace, obs: &[Obs], stats: &mut Stats) -> Vec<Violation> 
 // ---------------------------------------------------------------------------------------------
 // C14: encodings and corrupted storage
 
-const W1252_EXTRAS: &[&str] = &["Zähler", "Größe µ °C", "naïve façade", "£ € ¥", "Ÿ œ Š ž", "¿qué?", "×÷±"];
+const W1252_EXTRAS: &[&str] = &["Zähler", "Größe µ °C", "naïve façade", "£ € ¥", "Ÿ œ Š ž", "¿qué?", "×÷±", "c1 \u{81}\u{8d}\u{8f}\u{90}\u{9d} ctl"];
 const UNICODE_EXTRAS: &[&str] = &["→ 日本語", "Ω ≈ ∑", "😀 emoji", "Привет", "ﬁ ligature", "\u{2028}sep"];
 
 /// Adds non-ASCII characters in comments and string literals.
-fn decorate(rng: &mut Rng, world: &mut World, repertoire_1252: bool) {
+fn decorate(rng: &mut Rng, world: &mut World, repertoire_1252: bool, allow_big: bool) {
     for d in world.decls.iter_mut() {
         let extra = if repertoire_1252 || rng.chance(1, 2) { *rng.pick(W1252_EXTRAS) } else { *rng.pick(UNICODE_EXTRAS) };
         match rng.below(6) {
@@ -639,13 +676,19 @@ fn decorate(rng: &mut Rng, world: &mut World, repertoire_1252: bool) {
             }
             5 => {
                 // a large comment: decoders and position arithmetic must not depend on file size
-                if rng.chance(1, 8) {
+                // (only for well-formed storage: rendering thousands of lexical errors of a corrupted
+                // large file is a matter of running time, which C14 does not speak about)
+                if allow_big && rng.chance(1, 8) {
                     let kb = rng.range(1, 70);
                     // the padding itself is ASCII half of the time, so that the first non-ASCII
                     // byte of the file lies beyond any sniffing window
                     let line = if rng.chance(1, 2) { format!("(* {} *)\n", "padding ".repeat(12)) } else { format!("(* {extra} {} *)\n", "padding ".repeat(12)) };
                     d.text = format!("{}{}", line.repeat(kb * 1024 / line.len()), d.text);
                 }
+            }
+            0 if allow_big && rng.chance(1, 12) => {
+                // one very long line
+                d.text = format!("(* {extra} {} *)\n{}", "x".repeat(rng.range(2_000, 70_000)), d.text);
             }
             0 => d.text = format!("(* {extra} *)\n{}", d.text),
             1 => {
@@ -728,12 +771,13 @@ pub fn gen_c14(rng: &mut Rng, thorough: bool, run_index: u64) -> WorldTrace {
         pool::gen_faulty(rng, size, kind)
     };
     let allow_1252 = rng.chance(1, 2);
-    decorate(rng, &mut world, allow_1252);
+    let twins = rng.chance(3, 5);
+    decorate(rng, &mut world, allow_1252, twins);
     let order = rng.perm(world.decls.len());
     let k = rng.range(1, 3.min(world.decls.len().max(1)));
     let files = partition(rng, &order, k, Enc::Utf8);
     let mut variants = vec![];
-    if rng.chance(3, 5) {
+    if twins {
         // twin worlds: same texts, independently drawn stored encodings
         let args = present(rng, &files);
         let dir_seed = rng.next();
@@ -958,8 +1002,16 @@ pub fn gen_c03(rng: &mut Rng, thorough: bool) -> WorldTrace {
     let kinds: Vec<&str> = pool::FAULT_KINDS.iter().copied().filter(|k| pool::is_standalone(k) && *k != "dup_one_faulty").collect();
     let kind = *rng.pick(&kinds);
     let mut world = pool::gen_faulty(rng, size, kind);
-    let involved = world.fault.as_ref().unwrap().involved.clone();
     let clash_world = pool::is_name_clash(kind);
+    if !clash_world && rng.chance(1, 4) {
+        // a faulty module with a second, different fault caught by another rule: adding files must
+        // not make either of the two disappear
+        let second = pool::second_fault(rng, world.decls.len());
+        let idx = world.decls.len();
+        world.decls.push(second);
+        world.fault.as_mut().unwrap().involved.push(idx);
+    }
+    let involved = world.fault.as_ref().unwrap().involved.clone();
     // optionally an accompanying declaration that reuses the faulty declaration's name
     let mut name_reuse = false;
     if !clash_world && rng.chance(1, 3) {
@@ -970,6 +1022,14 @@ pub fn gen_c03(rng: &mut Rng, thorough: bool) -> WorldTrace {
             _ => format!("PROGRAM {}\n  VAR\n    fine : INT;\n  END_VAR\n  fine := 1;\nEND_PROGRAM\n", name.to_uppercase()),
         };
         world.decls.push(pool::Decl { text: reuse, kind: "reuse".into(), name });
+        name_reuse = true;
+    }
+    if kind == "unsupported_stdlib_type" && !name_reuse && rng.chance(1, 2) {
+        // an accompanying, individually valid type that carries the name of the standard function
+        // block the faulty declaration refers to
+        let std_name = world.decls[involved[0]].text.split("t : ").nth(1).and_then(|r| r.split(';').next()).unwrap_or("TON").trim().to_string();
+        let reuse = if rng.chance(1, 2) { format!("TYPE\n  {std_name} : (StdA, StdB) := StdA;\nEND_TYPE\n") } else { format!("TYPE\n  {} : STRUCT\n    f0 : INT;\n  END_STRUCT;\nEND_TYPE\n", std_name.to_lowercase()) };
+        world.decls.push(pool::Decl { text: reuse, kind: "reuse".into(), name: std_name });
         name_reuse = true;
     }
     let company: Vec<usize> = (0..world.decls.len()).filter(|d| !involved.contains(d)).collect();
@@ -1219,15 +1279,18 @@ pub fn covers_all_files(v: &Variant) -> bool {
         return true;
     }
     let sub = v.files.iter().any(|f| f.name.contains('/'));
-    if sub && v.args.iter().any(|a| a == "ws") {
+    let whole_dir = |a: &String| matches!(a.as_str(), "ws" | "ws/." | "ws/../ws" | "ws/./");
+    if sub && v.args.iter().any(whole_dir) {
         // a directory that holds sub-directories is a different scenario (fault kind of C13)
         return false;
     }
     v.files.iter().all(|f| {
         v.args.contains(&format!("ws/{}", f.name))
+            || v.args.contains(&format!("ws/./{}", f.name))
+            || v.args.contains(&format!("ws/../ws/{}", f.name))
             || match f.name.split_once('/') {
                 Some((d, _)) => v.args.contains(&format!("ws/{d}")),
-                None => v.args.iter().any(|a| a == "ws"),
+                None => v.args.iter().any(whole_dir),
             }
     })
 }
